@@ -293,7 +293,8 @@ pub fn explore_schedules(programs: &[Vec<usize>], bound: usize, alpha: &[Call], 
 
 fn audit() -> Vec<String> {
     let mut found = vec![];
-    let dir = std::path::Path::new("/repo/wgsl_to_wgpu/src");
+    let dir_buf = root().join("harness").join("subject").join("wgsl_to_wgpu").join("src");
+    let dir = dir_buf.as_path();
     let pats = ["static ", "thread_local!", "lazy_static", "OnceLock", "OnceCell", "LazyLock", "Mutex", "RwLock", "AtomicU", "AtomicI", "AtomicBool", "AtomicPtr", "atomic::", "unsafe ", "std::env", "env::var", "std::fs", "fs::", "current_dir", "SystemTime", "Instant::now", "rand::", "RandomState"];
     if let Ok(rd) = std::fs::read_dir(dir) {
         for e in rd.flatten() {
